@@ -8,6 +8,7 @@ T3: float instance vs compute_tms / compute_mto / the sweep speed observed
 Oracle: inverse, monotonicity, central finite differences of compute_mto.
 """
 import math
+import warnings
 
 import numpy as np
 
@@ -263,6 +264,29 @@ def run(chk):
             if abs(used - fd) > 1e-5 * abs(fd):
                 chk.fail("sweep speed used by the evolution equals -d(m_to)/dt (main model)", dict(feh=feh, t=t, m_to=mto, mmax=300.0),
                          dict(used=used, finite_difference=fd))
+    # ---- the two functions on models BUILT with documented options (not on carriers): whatever the options - stellar evolution switched off,
+    #      escape, another class - they are the functions of the metallicity's table row --------------------------------------------------
+    emf_ = U.mods()[0]
+    for feh, a0, a1, a2 in (rows if chk.tier == "thorough" else rng.sample(rows, 4)):
+        for opt_ in (dict(stellar_evolution=False), dict(stellar_evolution=False, esc_rate=-5.0), dict(esc_rate=-5.0, tcc=3000.0)):
+            kwm = dict(m_breaks=[0.1, 0.5, 1.0, 100], a_slopes=[-0.5, -1.3, -2.5], nbins=[2, 2, 4], FeH=feh, tout=[50.0], esc_rate=0.0, N0=1e5)
+            kwm.update(opt_)
+            try:
+                with warnings.catch_warnings():
+                    warnings.simplefilter("ignore")
+                    mo_ = emf_.EvolvedMF.from_powerlaw(**kwm)
+            except Exception as e:  # noqa
+                chk.notes.append("option model raised %s for %s" % (type(e).__name__, opt_))
+                continue
+            chk.count("lifetime / turn-off functions read from models built with options")
+            for mq_ in (0.05, 1.0, 40.0, 300.0):
+                want_t = a0 * math.exp(a1 * mq_ ** a2)
+                got_t = float(mo_.compute_tms(mq_))
+                back_ = float(mo_.compute_mto(np.array(want_t * (1 + 1e-9))))
+                if not (abs(got_t - want_t) <= 1e-12 * want_t) or not (abs(back_ - mq_) <= 1e-6 * mq_):
+                    chk.fail("lifetime and turn-off mass are mutual inverses (functions of the table row, whatever the model's options)", dict(feh=feh, options=opt_, m=mq_),
+                             dict(lifetime=got_t, closed_form=want_t, turnoff_of_that_lifetime=back_))
+                    break
     # ---- late ages, every row: the property quantifies over ages up to 1e6 Myr (turn-off masses down to ~0.3 Msun, where some rows' WD
     #      relation has already dropped to zero or below) ------------------------------------------------------------------------------
     late_exprs, late_meta = [], []
